@@ -8,7 +8,7 @@ from sa.absint import Evaluator, all_effects, flatten_effects
 from sa.index import AnalysisError, walk_no_nested
 from sa.teval import Raised, Unknown, disjuncts, ge0_form, lin_key, linear, lin_sub, teval
 from sa.terms import App, Const, Ref, Sym, cases, cat_parts, subterms
-from . import argname
+from . import argname, generic
 from .layout import DNS, class_uuid, find_effect_calls, seg_len, segments, vendor_uuid
 
 EXPLANATION = ("abstract evaluation of MpiGenerator.generate/merge to byte-layout terms; the policy decision table "
@@ -25,6 +25,7 @@ REF_ROWS = {  # (downgrade prevention, independent updates, signature verificati
 
 def run(ctx):
     R = ctx.report
+    generic.cli_converters(ctx, "C12-D3b CLI converters", "suit_generator.cmd_mpi", 4)
     repo = ctx.repo
     ctx.use_files("suit_generator/cmd_mpi.py")
     ev = Evaluator(repo)
